@@ -131,7 +131,7 @@ func (s *Sim) hasWork(n *Node) bool {
 		return false
 	}
 	if n.Opts.Async {
-		return n.RN.HasReady() || len(n.AppendQ) > 0 || len(n.ApplyQ) > 0 || len(n.SelfQ[0]) > 0 || len(n.SelfQ[1]) > 0
+		return n.RN.HasReady() || (len(n.AppendQ) > 0 && !n.SlowAppend) || (len(n.ApplyQ) > 0 && !n.SlowApply) || len(n.SelfQ[0]) > 0 || len(n.SelfQ[1]) > 0
 	}
 	return n.Phase != PhaseIdle || n.RN.HasReady()
 }
@@ -483,9 +483,9 @@ func (s *Sim) service(n *Node) bool {
 				s.selfStep(n, 0)
 			case len(n.SelfQ[1]) > 0:
 				s.selfStep(n, 1)
-			case len(n.AppendQ) > 0:
+			case len(n.AppendQ) > 0 && !n.SlowAppend:
 				s.appendStep(n, !n.Opts.LazySync)
-			case len(n.ApplyQ) > 0:
+			case len(n.ApplyQ) > 0 && !n.SlowApply:
 				s.applyStep(n)
 			case n.RN.HasReady():
 				s.takeReadyAsync(n)
